@@ -3,6 +3,9 @@
 S = "internal/server"
 
 CHECKS = {
+    "C08": {"level": "model_checking",
+            "parts": [{"pkg": S, "check": "c08", "shards": 16, "gomaxprocs": 1}],
+            "quick": {"budget_s": 80}, "thorough": {"budget_s": 500}},
     "smoke": {"level": "exploration", "parts": [{"pkg": S, "check": "smoke", "shards": 1}],
               "quick": {"budget_s": 30}},
 }
